@@ -1143,12 +1143,20 @@ fn check_lww(w: &mut World, r: usize) -> Result<(), Violation> {
             return viol("C05", "subtree-still-reachable", format!("{} ;; log tail: {}", d, w.tail(6)));
         }
     }
+    let mut placeholder: HashSet<Uid> = HashSet::new();
+    for b in yrs::verif::store_blocks(&rep.doc.transact()).iter().filter(|b| b.kind == 1) {
+        for k in b.id.clock..b.id.clock + b.len {
+            placeholder.insert((b.id.client.get(), k));
+        }
+    }
     // group known writes per register
     let mut regs: BTreeMap<(String, String), Vec<&LwwWrite>> = BTreeMap::new();
     for wr in w.ext.writes.iter() {
         // a write this replica holds only as a GC placeholder carries no information about what it
         // overwrote (and is itself deleted): it cannot be expected to hide anything here
-        if integ.contains(&wr.uid) && live.contains(&wr.c) && !rep.model.gcform.contains(&wr.uid) {
+        // (a GC *range*, that is: an item whose content was collected in place keeps its position
+        // in the key's chain and still counts)
+        if integ.contains(&wr.uid) && live.contains(&wr.c) && !placeholder.contains(&wr.uid) {
             regs.entry((wr.c.clone(), wr.key.clone())).or_default().push(wr);
         }
     }
@@ -1182,7 +1190,8 @@ fn check_lww(w: &mut World, r: usize) -> Result<(), Violation> {
             None => {
                 // absent: some maximal write must have been removed
                 if !maximal.iter().any(|x| deleted(x) || gone(x)) && known.iter().all(|x| lo.contains(&x.uid)) {
-                    let d = format!("r{}: {}[{}] is absent although no removal of a maximal write was received; maximal writes {:?}", rep.cfg.id, c, key, maximal.iter().map(|x| (&x.label, x.uid)).collect::<Vec<_>>());
+                    let all: Vec<String> = w.ext.writes.iter().filter(|x| &x.c == c && &x.key == key).map(|x| format!("{}@{:?} integ={} gcform={} del={}", x.label, x.uid, integ.contains(&x.uid), rep.model.gcform.contains(&x.uid), rep.model.del.contains(&x.uid))).collect();
+                    let d = format!("r{}: {}[{}] is absent although no removal of a maximal write was received; maximal writes {:?}; all recorded writes of the key: {:?}", rep.cfg.id, c, key, maximal.iter().map(|x| (&x.label, x.uid)).collect::<Vec<_>>(), all);
                     return viol("C05", "lost-write", format!("{} ;; log tail: {}", d, w.tail(6)));
                 }
             }
